@@ -535,7 +535,7 @@ func waitFor(cond func() bool, d time.Duration) bool {
 func main() {
 	run = vlib.Start("C09")
 	rogger.SetLevel(rogger.OFF)
-	run.SetRule("scenarios = fault {refuse, blackhole, accept-then-silence, read-then-silence, reply after 0.5/0.9/1.1/3 x deadline, close before read / after read / reset / mid-response, garbage (random, illegal length, undecodable body, foreign id), never-read with 1 MiB requests and queue length 1} x deadline source {proxy timeout, per-call client timeout, context deadline} x deadline {100,300,600 ms} x callers {1,8} (thorough: 64), two-way and one-way; each followed by counter comparison and a 20-call control batch on the healed peer. A case is one call; distinct = distinct (fault, source, deadline, callers, outcome mix).")
+	run.SetRule("scenarios = fault {refuse, blackhole, accept-then-silence, read-then-silence, reply after 0.5/0.9/1.1/3 x deadline, close before read / after read / reset / mid-response, garbage (random, illegal length, undecodable body, foreign id), never-read with 1 MiB requests and queue length 1} x deadline source {proxy timeout, per-call client timeout, context deadline} x deadline {100,300,600 ms} x callers {1,8} (thorough: 64), two-way and one-way; each followed by counter comparison and a 20-call control batch on the healed peer. Endpoint-manager histories: an endpoint taken out of rotation comes back slow, 2..3 probe calls overlap and are all answered, then ordinary calls on the proxy and a sibling (probes.go). A case is one call; distinct = distinct (fault, source, deadline, callers, outcome mix).")
 	run.Assume("slack 2 s; connection-establishment bound = ClientDialTimeout; an overrun counts only when three isolated replays of the same scenario exceed the bound too")
 	faults := []string{"refuse", "blackhole", "accept-then-silence", "read-then-silence", "late-0.5", "late-0.9", "late-1.1", "late-3", "close-before-read", "close-after-read", "reset-after-read", "close-mid-response",
 		"garbage-random", "garbage-illegal-length", "garbage-undecodable-body", "foreign-id", "never-read"}
@@ -629,6 +629,17 @@ func main() {
 			defer func() { <-sem }()
 			runScenario(sc)
 		}(sc)
+	}
+	// histories of the endpoint manager: overlapping, answered probe calls (probes.go)
+	for k, pr := range [][3]int{{2, 600, 100}, {3, 500, 60}, {2, 300, 20}, {2, 900, 400}} {
+		if k >= run.Pick(3, 4) {
+			break
+		}
+		wg.Add(1)
+		go func(k int, pr [3]int) {
+			defer wg.Done()
+			overlappingProbesScenario(9000+k, pr[0], pr[1], pr[2])
+		}(k, pr)
 	}
 	wg.Wait()
 	run.Set("scenarios", len(scs))
